@@ -362,11 +362,17 @@ def gen_C04_phase1(o, rng, tier):
                   f"{reg} remove_entry k:{c}#0", f"{reg} get q:{c}#0", f"{reg} contains_key k:{c}#0",
                   f"{reg} entry {{k{c}}} [1] oi:{{v}}", f"{reg} entry {{k{c}}} [] oiw:{{v}}",
                   f"{reg} entry {{k{c}}} [] od:{{v}}", f"{reg} entry {{k{c}}} [] o.remove",
-                  f"{reg} entry {{k{c}}} [] drop", f"{reg} entry {{k{c}}} [] key"]
+                  f"{reg} entry {{k{c}}} [] drop", f"{reg} entry {{k{c}}} [] key",
+                  f"{reg} entry {{k{c}}} [] oiwk:{{v}}", f"{reg} entry {{k{c}}} [2] o.insert:{{v}}",
+                  f"{reg} entry {{k{c}}} [] o.remove_entry", f"{reg} entry {{k{c}}} [] v.insert:{{v}}",
+                  f"{reg} entry {{k{c}}} [] v.into_key", f"{reg} entry {{k{c}}} [] v.key",
+                  f"{reg} get_mut k:{c}#0 3", f"{reg} index q:{c}#0", f"{reg} index_mut k:{c}#0 2",
+                  f"{reg} get_key_value q:{c}#0"]
         t += [f"{reg} clear", f"{reg} drop", f"{reg} retain 5 1", f"{reg} retain 0 0", f"{reg} retain 2 0",
               f"{reg} clone m1", f"{reg} eq m1", f"m1 eq {reg}",
               f"{reg} drain 1 drop", f"{reg} drain 0 drop", f"{reg} into_iter pairs 1 drop",
-              f"{reg} into_iter keys 0 drop"]
+              f"{reg} into_iter keys 0 drop", f"{reg} into_iter keys 2 drop", f"{reg} into_iter values 2 drop",
+              f"{reg} into_iter values 1 forget", f"{reg} drain 1 forget", f"{reg} drain 3 drop"]
         for k in range(0, 4):
             for seq in itertools.islice(itertools.product(u[:3], repeat=k), 0, 12):
                 xs = ",".join(f"{{k{c}}}={{v}}" for c in seq)
@@ -456,7 +462,7 @@ def gen_C04_phase2(o, trace_path, ops_path):
             if regs[0] == "m0":
                 for r in regs:
                     o.op(f"{r} len")
-                    o.op(f"{r} insert 0#900{1 if r == 'm0' else 2} 9001#1")
+                    o.op(f"{r} insert 0#900{1 if r == 'm0' else 2} 900{3 if r == 'm0' else 4}#1")
                     o.op(f"{r} get q:1#0")
                     o.op(f"{r} remove q:0#0")
                     o.op(f"{r} iter iter 0 nnnnn")
